@@ -893,6 +893,8 @@ theorem fee_produce_eq (env : Env) (cfg : Cfg) (n : Node) (ts : Int) (perm : Lis
         match n.led.utxos.update n.led.lastTxs (n.led.lastTs + cfg.interval) with
         | .error _ => none
         | .ok copy =>
+          if (!n.led.blocks.isEmpty && decide (ts ≤ n.led.lastTs)) = true then none
+          else
           match n.led.confirmLast with
           | .error _ => none
           | .ok c =>
@@ -911,10 +913,13 @@ theorem fee_produce_eq (env : Env) (cfg : Cfg) (n : Node) (ts : Int) (perm : Lis
       rw [produceLoop_eq_greedy]
       dsimp only
       unfold Ledger.addBlock
-      cases hc : n.led.confirmLast with
-      | error e => rfl
-      | ok c =>
-        simp [blockOf, keptOf, feesOf, startReward, hb]
+      by_cases hnt : (!n.led.blocks.isEmpty && decide (ts ≤ n.led.lastTs)) = true
+      · rw [if_pos hnt, if_pos hnt]
+      · rw [if_neg hnt, if_neg hnt]
+        cases hc : n.led.confirmLast with
+        | error e => rfl
+        | ok c =>
+          simp [blockOf, keptOf, feesOf, startReward, hb]
   · have hb : (n.led.lastTs == 0) = false := by simp [h0]
     by_cases h1 : n.led.lastTs = ts
     · rw [if_pos ⟨h0, Or.inl h1.symm⟩]
@@ -945,10 +950,13 @@ theorem fee_produce_eq (env : Env) (cfg : Cfg) (n : Node) (ts : Int) (perm : Lis
       rw [produceLoop_eq_greedy]
       dsimp only
       unfold Ledger.addBlock
-      cases hc : n.led.confirmLast with
-      | error e => rfl
-      | ok c =>
-        simp [blockOf, keptOf, feesOf, startReward, hb]
+      by_cases hnt : (!n.led.blocks.isEmpty && decide (ts ≤ n.led.lastTs)) = true
+      · rw [if_pos hnt, if_pos hnt]
+      · rw [if_neg hnt, if_neg hnt]
+        cases hc : n.led.confirmLast with
+        | error e => rfl
+        | ok c =>
+          simp [blockOf, keptOf, feesOf, startReward, hb]
 
 end Node
 namespace Node
@@ -1070,6 +1078,9 @@ theorem fee_produce_some {env : Env} {cfg : Cfg} {n : Node} {ts : Int} {perm : L
     | ok copy =>
       rw [hu] at h
       dsimp only at h
+      by_cases hnt : (!n.led.blocks.isEmpty && decide (ts ≤ n.led.lastTs)) = true
+      · rw [if_pos hnt] at h; cases h
+      rw [if_neg hnt] at h
       cases hcl : n.led.confirmLast with
       | error e => rw [hcl] at h; cases h
       | ok c =>
@@ -1077,11 +1088,33 @@ theorem fee_produce_some {env : Env} {cfg : Cfg} {n : Node} {ts : Int} {perm : L
         injection h with h
         exact ⟨copy, c, rfl, rfl, h.symm⟩
 
+/-- a produced block is dated after the tip it extends (the `AddBlock` guard) -/
+theorem fee_produce_some_after_tip {env : Env} {cfg : Cfg} {n : Node} {ts : Int} {perm : List Tx} {rewardId : String} {n' : Node}
+    (h : n.produce env cfg ts perm rewardId = some n') : n.led.blocks = [] ∨ n.led.lastTs < ts := by
+  rw [fee_produce_eq] at h
+  by_cases hc : n.led.lastTs ≠ 0 ∧ (ts = n.led.lastTs ∨ ts > n.led.lastTs + cfg.interval)
+  · rw [if_pos hc] at h; cases h
+  rw [if_neg hc] at h
+  cases hu : n.led.utxos.update n.led.lastTxs (n.led.lastTs + cfg.interval) with
+  | error e => rw [hu] at h; cases h
+  | ok copy =>
+    rw [hu] at h
+    dsimp only at h
+    by_cases hnt : (!n.led.blocks.isEmpty && decide (ts ≤ n.led.lastTs)) = true
+    · rw [if_pos hnt] at h; cases h
+    · by_cases hb : n.led.blocks = []
+      · exact Or.inl hb
+      · right
+        have : ¬ (ts ≤ n.led.lastTs) := by
+          intro hle; apply hnt; simp [hb, hle]
+        omega
+
 /-- exactly when a tick is refused -/
 theorem fee_produce_none_iff (env : Env) (cfg : Cfg) (n : Node) (ts : Int) (perm : List Tx) (rewardId : String) :
     n.produce env cfg ts perm rewardId = none ↔
       (n.led.lastTs ≠ 0 ∧ (ts = n.led.lastTs ∨ ts > n.led.lastTs + cfg.interval)) ∨
       (n.led.utxos.update n.led.lastTxs (n.led.lastTs + cfg.interval)).isOk = false ∨
+      (n.led.blocks ≠ [] ∧ ts ≤ n.led.lastTs) ∨
       n.led.confirmLast.isOk = false := by
   rw [fee_produce_eq]
   by_cases hc : n.led.lastTs ≠ 0 ∧ (ts = n.led.lastTs ∨ ts > n.led.lastTs + cfg.interval)
@@ -1091,9 +1124,17 @@ theorem fee_produce_none_iff (env : Env) (cfg : Cfg) (n : Node) (ts : Int) (perm
   | error e => simp [Except.isOk, Except.toBool]
   | ok copy =>
     dsimp only
+    by_cases hnt : (!n.led.blocks.isEmpty && decide (ts ≤ n.led.lastTs)) = true
+    · rw [if_pos hnt]
+      simp only [true_iff]
+      right; right; left
+      simpa using hnt
+    rw [if_neg hnt]
+    have hnt' : ¬ (n.led.blocks ≠ [] ∧ ts ≤ n.led.lastTs) := by
+      intro ⟨a, b⟩; apply hnt; simp [a, b]
     cases hcl : n.led.confirmLast with
     | error e => simp [Except.isOk, Except.toBool]
-    | ok c => simp [Except.isOk, Except.toBool, hc]
+    | ok c => simp [Except.isOk, Except.toBool, hc, hnt']
 
 theorem filter_hasReward_append_reward (kept : List Tx) (rtx : Tx) (hk : ∀ t ∈ kept, t.hasReward = false)
     (hr : rtx.hasReward = true) : (kept ++ [rtx]).filter (·.hasReward) = [rtx] := by
